@@ -1415,6 +1415,11 @@ class Exec:
             self.block(e.get("body"), out)
             return ("unk", "stmtexpr")
         if k == "other":
+            if "cv" in e:
+                try:
+                    return I(int(e["cv"]))            # a compile-time constant the front end evaluated (offsetof)
+                except (TypeError, ValueError):
+                    pass
             for c in e.get("ch", []):
                 if isinstance(c, dict):
                     self.ev(c, out)
